@@ -302,3 +302,54 @@ func HarnessBufferPool() {
 	vAssert(b2[0] == 2, "pool: a buffer handed out again does not alias one still in use")
 	vCover(n > 1, "larger buffer reachable")
 }
+
+// HarnessStripE2E: prefix stripping through the composition Router.ServeHTTP -> Service.ServeHTTP (middleware chain of
+// the real constructor, with or without request/response buffering) -> target handler -> the real Target.rewrite.
+// RewriteStrip proves the rewrite for a context built by hand and Route404 that the router attaches it; this one
+// checks that what the router attached is what the rewrite sees after the service's own handlers ran.
+func HarnessStripE2E() {
+	vFixMapOrderType("requestServiceMap")
+	vSortMode = 0
+	strip := vBool("strip")
+	buffer := vBool("buffer")
+	mk := func(name, prefix string, strip bool) *Service {
+		opts := ServiceOptions{Hosts: []string{"h"}, PathPrefixes: []string{prefix}, StripPrefix: strip}
+		topts := TargetOptions{HealthCheckConfig: HealthCheckConfig{Path: "/up"}, BufferRequests: buffer, BufferResponses: buffer,
+			MaxMemoryBufferSize: 1 << 20, MaxRequestBodySize: 1 << 20, MaxResponseBodySize: 1 << 20}
+		s, err := NewService(name, opts, topts)
+		vAssert(err == nil, "strip e2e: service builds")
+		s.active = vBalancer("t-" + name + ":80")
+		return s
+	}
+	r := NewRouter("/state")
+	r.services.Set(mk("root", "/", vBool("root_strip")))
+	r.services.Set(mk("sub", "/app", strip))
+	tail := vString("tail", vParam("tailcap", 3))
+	vAssume(vOr(len(tail) == 0, strings.HasPrefix(tail, "/")))
+	vAssume(strings.Count(tail, "/")+strings.Count(tail, "a") == len(tail))
+	toSub := vChoose("to_root", 2) == 0
+	path := "/x" + tail
+	if toSub {
+		path = "/app" + tail
+	}
+	req := &http.Request{Method: "GET", URL: &url.URL{Path: path}, Host: "h", Header: http.Header{}, RemoteAddr: "1.2.3.4:5"}
+	w := vNewRecorder()
+	r.ServeHTTP(w, req)
+	w.finish()
+	vAssert(w.status == 200 && len(vForwards) == 1, "strip e2e: the request is forwarded once")
+	if len(vForwards) != 1 {
+		return
+	}
+	f := vForwards[0]
+	outURL := *f.req.URL
+	out := &http.Request{Method: f.req.Method, URL: &outURL, Host: f.req.Host, Header: http.Header{}}
+	f.target.rewrite(&httputil.ProxyRequest{In: f.req, Out: out})
+	want := path
+	if toSub && strip {
+		want = tail
+	}
+	vAssert(out.URL.Path == want, "strip e2e: the target receives the path less the matched prefix iff its service strips prefixes")
+	vAssert(out.Host == "h", "strip e2e: original Host kept")
+	vCover(toSub && strip, "stripped reachable")
+	vCover(!toSub, "root service reachable")
+}
